@@ -760,4 +760,51 @@ theorem hexagon_normals_mirror_rotated (n : ℕ) (hn : n < 6) :
   · rw [show (6 - 4) % 6 = 6 - 4 from rfl, e 4 (by omega), Real.sin_two_pi_sub, Real.cos_two_pi_sub]; exact ⟨rfl, rfl⟩
   · rw [show (6 - 5) % 6 = 6 - 5 from rfl, e 5 (by omega), Real.sin_two_pi_sub, Real.cos_two_pi_sub]; exact ⟨rfl, rfl⟩
 
+/-! ## across helpers: one centre convention -/
+
+/-- **cropping is sub-array extraction**: for a target no larger than the source, `subarray(a, (h, w))` (shift 0) succeeds and is `pad(a, (h, w))` -/
+theorem subarray_eq_pad_crop [Zero K] (a : Arr K) (h w : Int) (hh : 0 < h) (hw : 0 < w) (h0 : h ≤ a.s0) (h1 : w ≤ a.s1) :
+    ∃ r, subarray a h w 0 0 = .ok r ∧ r.s0 = h ∧ r.s1 = w ∧
+      ∀ i j, 0 ≤ i → i < h → 0 ≤ j → j < w → r.get i j = (pad2 a h w).get i j := by
+  obtain ⟨r, hr⟩ := (subarray_refuses_iff a h w 0 0 hh hw).2 ⟨fun i a0 a1 => by omega, fun j a0 a1 => by omega⟩
+  obtain ⟨e0, e1, hget⟩ := subarray_indices a r h w 0 0 hr
+  refine ⟨r, hr, e0, e1, ?_⟩
+  intro i j i0 i1 j0 j1
+  obtain ⟨g, b0, b1, b2, b3⟩ := hget i j i0 i1 j0 j1
+  rw [g, pad_keeps_origin a h w i j (by omega) (by omega) ⟨i0, i1⟩ ⟨j0, j1⟩]
+  unfold Arr.centred
+  have k0 : inWin 0 a.s0 (i - h / 2 + a.s0 / 2) = true := (inWin_iff ..).2 (by omega)
+  have k1 : inWin 0 a.s1 (j - w / 2 + a.s1 / 2) = true := (inWin_iff ..).2 (by omega)
+  simp only [k0, k1, Bool.and_self, if_true]
+  congr 1 <;> omega
+
+section
+variable [Field K] [LinearOrder K] [IsStrictOrderedRing K]
+
+/-- **drawing and padding commute** (the shapes and `pad` share the centre convention): a circle / rectangle / hexagon drawn on an
+`n0 × n1` array and then padded or cropped to `S0 × S1` equals, wherever `pad` copies a sample, the same shape drawn directly on
+`S0 × S1` -/
+theorem shape_pad_commute (sqrt : K → K) (half : K) (n0 n1 S0 S1 : Int) (radius width height inner s0 s1 ca sa : K)
+    (sinT cosT : Nat → K) (aa : Bool) (i j : Int) (h0 : 0 ≤ n0) (h1 : 0 ≤ n1) (hi : 0 ≤ i ∧ i < S0) (hj : 0 ≤ j ∧ j < S1)
+    (hin : 0 ≤ i - S0 / 2 + n0 / 2 ∧ i - S0 / 2 + n0 / 2 < n0 ∧ 0 ≤ j - S1 / 2 + n1 / 2 ∧ j - S1 / 2 + n1 / 2 < n1) :
+    (pad2 ⟨n0, n1, fun i j => circleAt sqrt half n0 n1 radius s0 s1 aa i j⟩ S0 S1).get i j = circleAt sqrt half S0 S1 radius s0 s1 aa i j ∧
+    (pad2 ⟨n0, n1, fun i j => rectangleAt half n0 n1 width height s0 s1 ca sa aa i j⟩ S0 S1).get i j
+      = rectangleAt half S0 S1 width height s0 s1 ca sa aa i j ∧
+    (pad2 ⟨n0, n1, fun i j => hexagonAt half inner sinT cosT n0 n1 s0 s1 aa i j⟩ S0 S1).get i j
+      = hexagonAt half inner sinT cosT S0 S1 s0 s1 aa i j := by
+  have k0 : inWin 0 n0 (i - S0 / 2 + n0 / 2) = true := (inWin_iff ..).2 ⟨hin.1, hin.2.1⟩
+  have k1 : inWin 0 n1 (j - S1 / 2 + n1 / 2) = true := (inWin_iff ..).2 ⟨hin.2.2.1, hin.2.2.2⟩
+  have m0 : ∀ s : K, meshCoord n0 (i - S0 / 2 + n0 / 2) s = meshCoord S0 i s := by
+    intro s; have := meshCoord_recentre n0 S0 (i - S0 / 2) s; rw [this]; congr 1; omega
+  have m1 : ∀ s : K, meshCoord n1 (j - S1 / 2 + n1 / 2) s = meshCoord S1 j s := by
+    intro s; have := meshCoord_recentre n1 S1 (j - S1 / 2) s; rw [this]; congr 1; omega
+  refine ⟨?_, ?_, ?_⟩
+  · rw [pad_keeps_origin _ S0 S1 i j h0 h1 hi hj]; unfold Arr.centred
+    simp only [k0, k1, Bool.and_self, if_true]; unfold circleAt; simp only [m0, m1]
+  · rw [pad_keeps_origin _ S0 S1 i j h0 h1 hi hj]; unfold Arr.centred
+    simp only [k0, k1, Bool.and_self, if_true]; unfold rectangleAt; simp only [m0, m1]
+  · rw [pad_keeps_origin _ S0 S1 i j h0 h1 hi hj]; unfold Arr.centred
+    simp only [k0, k1, Bool.and_self, if_true]; unfold hexagonAt; simp only [m0, m1]
+end
+
 end Lentil.C20
